@@ -343,6 +343,15 @@ def with_body_raises(k=2, mw=2):
     return P(f"with-raise-k{k}-w{mw}", pool(max_workers=mw), ops)
 
 
+def nowait_then_wait(k=3, mw=2, timeout=None, form="shutdown"):
+    """shutdown(wait=False) with work pending, later a waited shutdown (explicit, or the exit of
+    a with block) by the same thread: the second one has to wait for the drain."""
+    ops = [NEW] + [sub(f"t{i}", "ok", i) for i in range(k)] + [["shutdown", False, False]]
+    ops += [["with_exit"]] if form == "with" else [["shutdown", True, False]]
+    ops += [["submit_expect", "z"]]
+    return P(f"nowait-then-wait-k{k}-w{mw}-t{timeout}-{form}", pool(max_workers=mw, timeout=timeout), ops)
+
+
 def shutdown_twice(mw=2, second_wait=True):
     """Two threads shut the same executor down (both graceful)."""
     return P(f"shutdown-twice-w{mw}-{second_wait}", pool(max_workers=mw),
@@ -536,6 +545,14 @@ def busy_manager_idle_worker(mw=2, timeout=0.05, cb_sleep=0.3):
              [NEW, sub("g", "gate"), sub("a", "ok", 1), ["callback", "a", "slow", cb_sleep],
               ["result", "a"], ["sleep", 0.5], ["release", "g"], WAIT, ["submit_expect", "z"],
               shutdown(True)])
+
+
+def with_werror(prog):
+    """The same program in an interpreter that turns warnings into errors (-W error)."""
+    p = dict(prog)
+    p["pool"] = dict(prog["pool"], werror=True)
+    p["name"] = prog["name"] + "-werror"
+    return p
 
 
 def idle_then_die(mw=1, timeout=0.05):
